@@ -367,7 +367,7 @@ def replay_file(mod, path, quiet=False):
 
 
 def write_replay(prop, clause, fail, outdir=None):
-    outdir = outdir or os.path.join(VERIF, "out", "replay")
+    outdir = outdir or os.environ.get("VF_OUT") or os.path.join(VERIF, "out", "replay")
     os.makedirs(outdir, exist_ok=True)
     name = "%s-%s-%s.json" % (prop, clause, hashlib.sha1(fail["sig"].encode()).hexdigest()[:8])
     path = os.path.join(outdir, name)
